@@ -3,6 +3,13 @@
 import json, sys
 
 CLAIMED = {
+ "C16": dict(
+   category="exploration",
+   text="Explicit-state BFS over the real Package controller and PackageDeployer with a scripted registry: Package p whose image is switched among 11 classes {valid v1, valid v2, templated, not in the registry, no manifest, two manifests, malformed object YAML, object without phase annotation, OpenShift-only, Kubernetes >= 1.30, uniqueInScope} and whose config among {none, x:1, x:2, schema-violating}, 2 (quick) / 3 (thorough) edits in any order, pause/unpause, every fault kind (error before effect, lost response, crash) at every API call of the Package pass, environments Kubernetes 1.27 and OpenShift 4.12, optionally a twin Package with the same manifest name. Monitor on every Package pass: an inadmissible package (pull, load, object validation, config schema, platform / version / uniqueness constraint for this environment) never leads to a create or template change of the ObjectDeployment; pull failures persist Unpacked=False, load failures and unmet constraints persist Invalid=True; a spec unchanged since the last successful unpack causes zero pulls and zero template writes; after a completed pass on a valid changed spec the ObjectDeployment's template equals a fresh render of the new spec computed by calling the render pipeline directly (differential oracle); a paused Package pauses its ObjectDeployment and does nothing else (C09's Package clause).",
+   design_ref="DESIGN.md §7 C16",
+   note="Trusted: scripted registry; kmodel. Object-validation and config failures only need to leave the ObjectDeployment untouched.",
+   technique="explicit-state BFS over edit/fault sequences with a differential (fresh-render) oracle",
+   engine="world"),
  "C13": dict(
    category="exploration",
    text="Packages generated from a grammar - every subset of up to 4 of 10 file atoms (static single document, multi-document file with an empty document, .gotmpl using .config, _helpers define + include, file under a conditional path, object with a CEL condition annotation, non-YAML file, nested directory, object with collision-protection / condition-map annotations, sibling path that sorts differently with and without '/') x 2 manifest phase orders x 2 configurations = 1 544 packages - are rendered by the real structural loader, validators, template and object renderer and phase collector (the calls PackageDeployer.Deploy makes). The build overlay routes every `range` over a map in packagerender and packagestructure through an explorer-controlled order: each package is rendered under the canonical order and under every permutation (all n! for n <= 4 keys) at one (quick) / two (thorough) executed range sites: ~104 000 renders quick. Oracle: all renders of a package yield the identical ObjectSetTemplateSpec and FNV hash; a reference renderer that knows the expected documents by construction demands every passing object exactly once, in the phase its annotation names, phases in manifest order, objects in path-then-document order, package labels present, control annotations gone. A second sub enumerates the complete template function map and intersects it with the clock / randomness / environment / network / host-file functions of sprig.",
